@@ -60,6 +60,18 @@ fn is_skipped_header(header: &str) -> bool {
     header == "authorization"
 }
 
+/// `Trim(value)`: removes leading and trailing spaces and converts sequential spaces to a single space
+fn push_trimmed_header_value(output: &mut String, value: &str) {
+    let mut prev_is_space = false;
+    for ch in value.trim().chars() {
+        let is_space = ch == ' ';
+        if !(is_space && prev_is_space) {
+            output.push(ch);
+        }
+        prev_is_space = is_space;
+    }
+}
+
 /// is skipped query string
 fn is_skipped_query_string(name: &str) -> bool {
     name == "X-Amz-Signature"
@@ -146,7 +158,7 @@ pub fn create_canonical_request(
             }
             ans.push_str(name);
             ans.push(':');
-            ans.push_str(value.trim());
+            push_trimmed_header_value(&mut ans, value);
             ans.push('\n');
         }
         ans.push('\n');
@@ -358,7 +370,7 @@ pub fn create_presigned_canonical_request(
             }
             ans.push_str(name);
             ans.push(':');
-            ans.push_str(value.trim());
+            push_trimmed_header_value(&mut ans, value);
             ans.push('\n');
         }
         ans.push('\n');
